@@ -31,7 +31,7 @@ man={
  "hooks":{"guard":"cargo feature verif-hooks (packages/rooc/Cargo.toml), off by default",
           "enable":"harness/Cargo.toml depends on rooc by path with features=[\"verif-hooks\"]; ./check rebuilds against /repo's working tree",
           "baseline_off_cmd":"cd /repo/packages/rooc && (cargo nextest run --workspace --no-fail-fast --offline || cargo test --workspace --no-fail-fast --offline)",
-          "source_commits":["21e085b","3ea6608","56548b6","8527055"],"add_only":True},
+          "source_commits":["21e085b","3ea6608","56548b6","8527055","935e53b"],"add_only":True},
  "engines":[{"name":"rv","path":"harness","serves_properties":sorted(BUILT),"kind_free_text":"Rust runtime-monitoring harness: generators, reference models (exact rational LP/MILP with certificates, exact evaluator, LP-format reader), monitors over executions of the real code, sacrificial worker subprocesses with CPU/memory budgets"},
             {"name":"rv-miri","path":"miri","serves_properties":["C18"],"kind_free_text":"sanitizer layer of the C18 thorough tier: a slice of the C18 corpus through the compiler stages under cargo +nightly miri, 16 sharded processes (miri/run.sh)"}],
  "checks":[],
